@@ -101,3 +101,30 @@ Proof. exact demo_runs. Qed.
 
 Theorem C18_out_of_fuel_is_distinct : run 1 (init demo_kinds) demo_ops = Err OutOfFuel.
 Proof. exact demo_out_of_fuel. Qed.
+
+(* ------------------------------------------------------------------------------------------ *)
+(* TRANSLATOR TIE of the event handlers and the logger fan-out.  Gen/HandlersTable.v is regenerated by
+   `go2coq HandlersTable` from pkg/engine/event/handler/{simple,priority,mutable,cancel}.go and
+   pkg/engine/logging/logger.go on every run (every statement of Subscribe / Emit / Len / Swap / Less / Log /
+   InitLoggers recognised, or the translator exits 1); Model/HandlersInterp.v interprets it over the world /
+   trace / frame types of Model/Events.v.  For every world, handler index, priority, reaction queue, event
+   value and fuel the interpretation of the generated table is what the hand-written model computes:
+   Subscribe (in-place append with the runtime's growth for the simple handler; fresh array + insertion by the
+   recognised Less for the three sorting handlers), Emit (the array ranged over is the one at entry; the
+   listener gets the value / the pointer; the first canceller stops the loop, the CANCELLED event is logged
+   and true returned; otherwise the event is logged after the loop), logging.Log (every logger of the list,
+   once, in order) and InitLoggers (the list is replaced); and the table is field by field the expected one. *)
+From SR Require Model.HandlersInterp Gen.HandlersTable Proofs.HandlersTableProofs.
+
+Theorem C18_handlers_are_the_source :
+  (forall w h prio rs,
+     HandlersInterp.interp_subscribe HandlersTable.table w h prio rs = Some (subscribe w h prio rs)) /\
+  (forall fuel w h v,
+     HandlersInterp.interp_emit HandlersTable.table fuel w h v = Some (emit fuel w h v)) /\
+  (forall lgs h v c,
+     HandlersInterp.interp_log HandlersTable.table lgs h v c = Some (log_items lgs h v c)) /\
+  (forall w lgs,
+     HandlersInterp.interp_init HandlersTable.table w lgs = Some (init_loggers w lgs)) /\
+  HandlersTable.table = HandlersInterp.expected_table.
+Proof. exact HandlersTableProofs.handlers_hold. Qed.
+Print Assumptions C18_handlers_are_the_source.
